@@ -138,6 +138,25 @@ fn gen_op(rng: &mut StdRng, d: &Driver, profile: &str) -> Value {
     }
 }
 
+/// An operation that is meaningful on both worlds of a twin pair (targets are lineage ordinals).
+fn twin_op(rng: &mut StdRng, d: &Driver, w: usize) -> Value {
+    let s = d.ws[w - 1].as_ref().unwrap();
+    let n_issued = s.issued.len().max(1);
+    let e = json!({"k": rng.gen_range(1..=n_issued + 2)});
+    match rng.gen_range(0..10) {
+        0..=2 => json!({"op": "insert", "w": w, "order": pick_order(rng), "vals": vals(rng)}),
+        3..=4 => {
+            let n = rng.gen_range(0..4);
+            let rows: Vec<Vec<u32>> = (0..n).map(|_| vals(rng)).collect();
+            json!({"op": "extend", "w": w, "order": pick_order(rng), "rows": rows, "extra": 0})
+        }
+        5..=6 => json!({"op": "remove", "w": w, "e": e}),
+        7 => json!({"op": "add", "w": w, "e": e, "c": rng.gen_range(0..5), "v": rng.gen_range(1..900)}),
+        8 => json!({"op": "remc", "w": w, "e": e, "c": rng.gen_range(0..5)}),
+        _ => json!({"op": "qmut", "w": w, "mode": "all", "c": rng.gen_range(0..5), "v": rng.gen_range(1..50)}),
+    }
+}
+
 fn main() {
     let args: Vec<String> = std::env::args().collect();
     std::panic::set_hook(Box::new(|_| {})); // panics are data; keep stderr quiet
@@ -215,10 +234,34 @@ fn main() {
             d.wal = Some(format!("{}.cur", &args[5]));
             for h in 0..histories {
                 let mut rng = StdRng::seed_from_u64(seed.wrapping_mul(1_000_003).wrapping_add(h as u64));
-                for _ in 0..nops {
-                    let op = gen_op(&mut rng, &d, &profile);
+                let mut pending: std::collections::VecDeque<Value> = std::collections::VecDeque::new();
+                let mut n = 0;
+                while n < nops {
+                    n += 1;
+                    let op = match pending.pop_front() {
+                        Some(op) => op,
+                        None => gen_op(&mut rng, &d, &profile),
+                    };
                     if !d.exec(&op) {
                         break;
+                    }
+                    // lock-step twins: right after a copy, mirror a burst of operations on both worlds
+                    let name = op["op"].as_str().unwrap();
+                    if (name == "clone" || name == "serde") && pending.is_empty() && rng.gen_bool(0.75) {
+                        let a = op["w"].as_u64().unwrap() as usize;
+                        let b = op["dst"].as_u64().unwrap() as usize;
+                        if d.ws[b - 1].is_some() {
+                            let burst = rng.gen_range(1..6);
+                            for _ in 0..burst {
+                                let mut t = twin_op(&mut rng, &d, a);
+                                t["m"] = json!(1);
+                                let mut u = t.clone();
+                                u["w"] = json!(b);
+                                u["m"] = json!(2);
+                                pending.push_back(t);
+                                pending.push_back(u);
+                            }
+                        }
                     }
                 }
                 d.exec(&json!({"op": "reset"}));
